@@ -331,7 +331,7 @@ func ruleC12Keys(e *Env) {
 			if c.uni {
 				pu = pred.Ptr{Cell: &pred.Cell{V: pred.Sym{Name: "u"}, Name: "unit"}}
 			}
-			ev := &pred.Evaluator{Prog: e.P.SSA, Oracle: noOracle{}, Summaries: sums}
+			ev := &pred.Evaluator{Prog: e.P.SSA, GlobalInit: e.globalTables(), Oracle: noOracle{}, Summaries: sums}
 			out, err := ev.Eval(fn, []pred.Val{pv, pu})
 			switch {
 			case err != nil:
